@@ -35,6 +35,14 @@ type instructionType struct {
 	// instruction.
 	immediate immType
 
+	// shamtBits is number of bits of a shift amount encoded in bits [20..]
+	// of an instruction. Zero means that an instruction has no shift
+	// amount.
+	shamtBits uint8
+	// csrImm indicates that rs1 field of an instruction encodes a 5 bit
+	// unsigned immediate (csrr*i instructions).
+	csrImm bool
+
 	// instrType is set of instruction types of an opcode.
 	instrType model.Type
 
